@@ -151,4 +151,4 @@ class SyncDaliHatDriver(DaliHatSerialDriver, SyncDALIDriver):
                     resent_times += 1
             if command.is_query:
                 return command.response(resp)
-            return resp
+            return None
